@@ -208,6 +208,41 @@ CLAIMED = {
         "agree only to rounding (XLA fuses the statistics update differently per batch size): bitwise "
         "equality is decided with a surrogate root, real-root runs are a tolerance monitor.",
         "DESIGN.md 7/C13"),
+    "C08": (
+        "Coq proof (non-interference of blocks / parameters in the flat statistics layout, induction "
+        "over histories; per-block eigenvalue mask) + differential public-API runs (blocked tensor vs "
+        "its blocks as separate leaves vs with companion leaves)",
+        "Theorems in Properties/C08.v: two gradient histories that agree on block k give equal "
+        "statistics, roots and preconditioned gradient on block k (ds_block_local, PreconditionerType "
+        "ALL); every leaf receives the roots of its own statistics (under the named hypothesis that the "
+        "root of a padded statistic restricted to its block is the root of the unpadded one - C01/C13); "
+        "optimizing a blocked tensor equals optimizing its blocks separately; Tearfree's per-block "
+        "eigenvalue mask is block local (the old whole-batch maximum is refuted by a witness - fixed in "
+        "/repo). Tie: trees A (blocked), B (blocks as leaves), A+ (with companions, scales 1e-6..1e6), "
+        "Distributed Shampoo (ragged blocks, 1-2 blocked axes) and Tearfree Shampoo; statistics "
+        "bitwise, roots/updates bitwise where the same program runs, else within a conditioning slack "
+        "whose bounds are certified by the PSD checker; Coq derives the block<->statistic index map "
+        "from C06.Ref.",
+        "Trusted: Coq kernel + vm_compute; no axioms. Hypothesis root_padding_invariant is assumed "
+        "(monitored by the differential runs). Under jit XLA fuses the compared programs differently, so "
+        "those comparisons are to tolerance, not bitwise.",
+        "DESIGN.md 7/C08"),
+    "C14": (
+        "Coq proof (abstract pytree serialize/restore round trip and resume-identical by induction, "
+        "conditional on a pure step and an invariant static skeleton = C07's fixed point) + bitwise "
+        "resume experiments at every crash point",
+        "Theorems in Properties/C14.v: restore tmpl (serialize s) = s when s and tmpl share their static "
+        "skeleton; for every pure step, crash point k and history the run resumed from the serialized "
+        "state equals the suffix of the uninterrupted run; the static-skeleton hypothesis follows from "
+        "C07's layout fixed point; a hidden Python-side counter refutes the statement (witness). Tie: "
+        "flax to_bytes -> fresh optimizer object -> from_bytes -> continue, every later update and the "
+        "final state bitwise, every crash point 0..T, Distributed Shampoo (full / pmap / int16 / "
+        "compressed / FD / sharded / scheduled), SM3, Tearfree Shampoo and Sketchy; cross-process "
+        "resume; determinism; interleaving of two optimizers; scan for mutable closure state; the "
+        "leaves flax emits equal the model's serialize on the state's layout (Coq).",
+        "Trusted: Coq kernel + vm_compute; no axioms. flax/msgpack are oracles; purity of step is a "
+        "hypothesis of the theorem and is what the experiments probe.",
+        "DESIGN.md 7/C14"),
 }
 
 NOT_YET = {}
